@@ -431,8 +431,8 @@ def _get_pretty_form_text(verbose_level):
         "iterable_item_removed": "Item {diff_path} removed from iterable.",
         "attribute_added": "Attribute {diff_path} added.",
         "attribute_removed": "Attribute {diff_path} removed.",
-        "set_item_added": "Item root[{val_t2}] added to set.",
-        "set_item_removed": "Item root[{val_t1}] removed from set.",
+        "set_item_added": "Item {set_path}[{val_t2}] added to set.",
+        "set_item_removed": "Item {set_path}[{val_t1}] removed from set.",
         "repetition_change": "Repetition change for item {diff_path}.",
     }
     if verbose_level == 2:
@@ -457,8 +457,11 @@ def pretty_print_diff(diff):
     val_t2 = '"{}"'.format(str(diff.t2)) if type_t2 == "str" else str(diff.t2)
 
     diff_path = diff.path(root='root')
+    # a set item has no path of its own: name the set it belongs to
+    set_path = diff.up.path(root='root') if diff.up is not None else 'root'
     return _get_pretty_form_text(diff.verbose_level).get(diff.report_type, "").format(
         diff_path=diff_path,
+        set_path=set_path,
         type_t1=type_t1,
         type_t2=type_t2,
         val_t1=val_t1,
